@@ -168,7 +168,9 @@ func Harness_C19_Choose(nh int) {
 		verif.Assume(w >= 0)
 		verif.Assume(w <= 1000)
 		weights[i] = w
-		node := c19Nodes[i%2]
+		// which announcement carries the host is solver-chosen, so that one
+		// announcement can mix schemes and weights
+		node := c19Nodes[verif.Choose(2)]
 		u := uris.uris[node]
 		if u == nil {
 			u = &Uri{Weights: map[url.URL]float64{}}
